@@ -60,6 +60,32 @@ def movers(prog):
     return out
 
 
+def _uncovered_path(cfg, n, cands):
+    """Is there a run of the enclosing loop body (or of the function) that executes node n and none of `cands`?"""
+    cands = frozenset(c for c in cands if c != n)
+    loops = cfg.nodes[n].loops
+    if loops:
+        start, end = cfg.body_entry(loops[-1]), loops[-1]
+    else:
+        start, end = cfg.entry, cfg.exit
+    if start in cands:
+        return False
+    before = n == start or n in cfg.reach(start, avoid=cands) or start == n
+    after = end in cfg.reach(n, avoid=cands) or (not loops and cfg.rexit in cfg.reach(n, avoid=cands) and False)
+    return bool(before and after)
+
+
+def _absence_verdict(prog, f, ev_node, loose_nodes, roots):
+    """Verdict when no exact partner event was found: False only on positive evidence - some run executes the
+    event without any candidate partner, and nothing opaque could have done the partner's job."""
+    cfg = f.cfg
+    if prog.opaque_calls(f, [r for r in roots if r]):
+        return None, 'a call that receives the node may do it'
+    if loose_nodes and not _uncovered_path(cfg, ev_node, loose_nodes):
+        return None, 'a candidate partner exists on every path but could not be matched'
+    return False, ''
+
+
 DISCARD = {'trees.delete_terminal': 'the leaf (and ancestors left without children) leave the tree for good'}
 
 # ------------------------------------------------------------------------------------ R-LINK
@@ -93,12 +119,17 @@ def r_link(prog, tier):
                 if _same_value(f, a.x, a.node, p.x, p.node) and _same_value(f, a.q, a.node, p.q, p.node):
                     found = p
                     break
+            verdict, note = True, ''
+            if found is None:
+                loose = [p.node for p in pars if not _is_none(p.q) and (path(p.x) is None or path(a.x) is None
+                                                                       or _same_value(f, a.x, a.node, p.x, p.node))]
+                verdict, note = _absence_verdict(prog, f, a.node, loose, [root_name(a.x), root_name(a.q)])
             obs.append(Ob('R-LINK/L1', f.fq,
                           'attach `%s` is paired with a parent-pointer update of the attached node on '
-                          'every path' % unparse(a.ast), found is not None,
+                          'every path' % unparse(a.ast), verdict,
                           ('paired with `%s` (line %d)' % (unparse(found.ast), cfg.nodes[found.node].lineno))
-                          if found else 'no `%s.parent = %s` executed together with it'
-                          % (unparse(a.x), unparse(a.q)),
+                          if found else 'no `%s.parent = %s` executed together with it%s'
+                          % (unparse(a.x), unparse(a.q), (' (%s)' % note) if note else ''),
                           construct='att:' + unparse(a.ast), line=cfg.nodes[a.node].lineno))
         # L2: every PAR(X,Q) with Q possibly a node is paired with ATT(Q,X)
         for p in pars:
@@ -120,9 +151,12 @@ def r_link(prog, tier):
                          if fa not in [x[0] for x in facts_at(cfg, p.node)]]
                 qp = path(p.q)
                 okx = bool(extra)
+                groups = {}
                 for fa, nid in extra:
-                    if not ((fa[0] == 'none' and fa[1] == qp and fa[2] is False)
-                            or (fa[0] == 'truthy' and fa[1] == qp and fa[2] is True)):
+                    groups.setdefault(nid, []).append(fa)      # a condition and its expansions share the node
+                for nid, fas in groups.items():
+                    if not any((fa[0] == 'none' and fa[1] == qp and fa[2] is False)
+                               or (fa[0] == 'truthy' and fa[1] == qp and fa[2] is True) for fa in fas):
                         okx = False
                     else:
                         owner = cfg.nodes[nid].owner
@@ -142,11 +176,17 @@ def r_link(prog, tier):
                         if c.kind == 'CLR' and _same_value(f, c.q, c.node, p.q, p.node) and (names_in(c.value) & src):
                             found = c
                             why = 'element of the list assigned as `%s.children` (`%s`)' % (unparse(p.q), unparse(c.ast))
+            verdict, note = True, ''
+            if found is None:
+                loose = [a.node for a in atts if path(a.x) is None or path(p.x) is None
+                         or _same_value(f, a.x, a.node, p.x, p.node)]
+                loose += [c.node for c in evs if c.kind == 'CLR' and not (isinstance(c.value, ast.List) and not c.value.elts)]
+                verdict, note = _absence_verdict(prog, f, p.node, loose, [root_name(p.x), root_name(p.q)])
             obs.append(Ob('R-LINK/L2', f.fq,
                           'parent-pointer update `%s` is paired with an attach to that parent'
-                          % unparse(p.ast), found is not None,
-                          why if found else 'no `%s.children.append(%s)` executed together with it'
-                          % (unparse(p.q), unparse(p.x)),
+                          % unparse(p.ast), verdict,
+                          why if found else 'no `%s.children.append(%s)` executed together with it%s'
+                          % (unparse(p.q), unparse(p.x), (' (%s)' % note) if note else ''),
                           construct='par:' + unparse(p.ast), line=cfg.nodes[p.node].lineno))
         # L3: every DET(P,X) is followed by a parent-pointer update of X (re-attach or discard)
         for d in dets:
@@ -154,19 +194,23 @@ def r_link(prog, tier):
             for p in pars:
                 if not cfg.same_loop(d.node, p.node):
                     continue
-                if not (cfg.dominates(d.node, p.node) or cfg.postdominates(p.node, d.node)):
-                    continue
                 if not cfg.always_with(d.node, p.node):
                     continue
                 if _same_value(f, d.x, d.node, p.x, p.node):
                     found = p
                     break
             ok = found is not None
-            detail = ('followed by `%s`' % unparse(found.ast)) if found else \
-                'the detached node keeps a stale parent pointer (no `%s.parent = ...` follows)' % unparse(d.x)
+            detail = ('accompanied by `%s`' % unparse(found.ast)) if found else \
+                'the detached node keeps a stale parent pointer (no `%s.parent = ...` accompanies it)' % unparse(d.x)
             if not ok and f.fq in DISCARD:
                 ok = True
                 detail = 'DISCARD table: ' + DISCARD[f.fq]
+            if not ok:
+                loose = [p.node for p in pars if path(p.x) is None or path(d.x) is None
+                         or _same_value(f, d.x, d.node, p.x, p.node)]
+                ok, note = _absence_verdict(prog, f, d.node, loose, [root_name(d.x)])
+                if note:
+                    detail += ' (%s)' % note
             obs.append(Ob('R-LINK/L3', f.fq,
                           'detach `%s` is followed by re-attachment or explicit discard of the node'
                           % unparse(d.ast), ok, detail, construct='det:' + unparse(d.ast),
